@@ -885,6 +885,32 @@ def run(ctx):
                 ks.append((k, raw_schedule(rng, d, k, rng.choice([3, 5, 8, 12]), with_set=(i % 3 == 2))))
             batches.append((d, ks))
         run_raw_batch(res, pool, batches, 'typed-constant schedules (formula text)')
+        # 2c. SIZE: a chain deeper than any plausible depth guard (the interpreter itself copes with ~200 levels) and
+        # several LARGE ranges consumed by flattening functions, each evaluated more than once: head first, bottom
+        # up, round-robin, by a second evaluator — the value of a cell may depend on none of that
+        depth = 150
+        chain = {'Sheet1!A1': 1}
+        chain.update({f'Sheet1!A{i}': f'=A{i - 1}+1' for i in range(2, depth + 1)})
+        chain['Sheet2!A1'] = f'=Sheet1!A{depth}*2'
+        head = f'Sheet1!A{depth}'
+        ks = [(1, [('e', 0, head), ('e', 0, 'Sheet1!A70'), ('e', 0, head)]),
+              (1, [('e', 0, f'Sheet1!A{i}') for i in range(10, depth + 1, 10)] + [('e', 0, head)]),
+              (2, [('e', 0, 'Sheet1!A66'), ('e', 1, head), ('e', 0, head), ('e', 1, 'Sheet2!A1')]),
+              (2, [('e', 0, head), ('s', 0, 'Sheet1!A1', 1000), ('e', 1, head), ('e', 0, 'Sheet1!A90'), ('e', 0, 'Sheet2!A1')]),
+              (1, [('e', 0, 'Sheet2!A1'), ('e', 0, 'Sheet1!A120'), ('e', 0, 'Sheet2!A1')])]
+        big = {}
+        for c, col in enumerate('ABCD'):
+            for r in range(1, 251):
+                big[f'Sheet1!{col}{r}'] = (c + 1) * 1000 + r if (r + c) % 7 else float((c + 1) * 1000 + r) + 0.5
+        big.update({'Sheet1!F1': '=SUM(A1:A250)', 'Sheet1!F2': '=MAX(B1:B250)', 'Sheet1!F3': '=MIN(C1:C250)',
+                    'Sheet1!F4': '=SUM(D1:D250)', 'Sheet1!F5': '=AVERAGE(A1:B250)', 'Sheet1!F6': '=COUNT(C1:D250)',
+                    'Sheet1!F7': '=MAX(A1:A250)+MIN(D1:D250)', 'Sheet1!F8': '=AND(A1:A250)'})
+        fs = [f'Sheet1!F{i}' for i in range(1, 9)]
+        kb = [(1, [('e', 0, f) for f in fs] * 3),
+              (2, [('e', i % 2, f) for i, f in enumerate(fs + fs[::-1] + fs)]),
+              (1, [('e', 0, fs[0]), ('e', 0, fs[1]), ('e', 0, fs[0]), ('e', 0, fs[2]), ('e', 0, fs[1]), ('e', 0, fs[3]),
+                   ('s', 0, 'Sheet1!A7', -5), ('e', 0, fs[0]), ('e', 0, fs[6]), ('e', 0, fs[2]), ('e', 0, fs[0])])]
+        run_raw_batch(res, pool, [(chain, ks), (big, kb)], 'size schedules (deep chain, large ranges; formula text)')
         # 3. the model's own prediction for repeated passes: the retained size does not depend on n
         wb = c04.fixed_models()[6][1]
         m = evalwire.build_real(wb)
